@@ -531,7 +531,11 @@ func execC16(prog interface{}, c *Case) *Violation {
 					return violf("C16/gas/meter-state", "after out-of-gas: IsPastLimit=%v IsOutOfGas=%v ToLimit=%d limit=%d", meter.IsPastLimit(), meter.IsOutOfGas(), meter.GasConsumedToLimit(), limit)
 				}
 			}
-			break // state after a gas panic is not asserted
+			// the refused operation must not have written anything (the model was not updated)
+			if v := checkParent(idx); v != nil {
+				return v
+			}
+			break
 		}
 		if v := checkParent(idx); v != nil {
 			return v
